@@ -11,7 +11,7 @@ for sid in ids:
     d = os.path.join(root, sid)
     meta = json.load(open(os.path.join(d, 'meta.json')))
     env = dict(os.environ, SEEDLINES='60', SEEDCOLS='500')
-    out = subprocess.run(['/verif/tools/seedrun.sh', os.path.join(d, 'patch.diff'), 'all', 'quick'], capture_output=True, text=True, env=env).stdout
+    out = subprocess.run(['/verif/tools/seedrun.sh', os.path.join(d, 'patch.diff'), 'all', 'quick'], capture_output=True, text=True, errors='replace', env=env).stdout
     fired = sorted(set(re.findall(r'^VIOLATION property=(C\d+)', out, re.M)))
     own = meta['property']
     rules = []
